@@ -545,16 +545,34 @@ def make_futures_module():
             s.yield_point('fut.wait')
             return s.block_until(lambda: self._state in _DONE, timeout, what=f'future({self.vid})')
 
+        # A thread that has once observed this future done reads a state that can no longer change: its later
+        # result() / exception() calls are thread-local reads (no yield point, no event). This keeps the logged
+        # history independent of how many times the code looks at a finished future.
+        def _seen(self):
+            import threading as _t
+            return _t.get_ident() in self.__dict__.setdefault('_seen_done', set())
+
+        def _mark_seen(self, ok):
+            import threading as _t
+            if ok:
+                self.__dict__.setdefault('_seen_done', set()).add(_t.get_ident())
+
         def result(self, timeout=None):
+            if self._seen():
+                return super().result(0)
             ok = self._wait_done(timeout)
             with atomic:
                 S().ev('fut_wait', self.vid, ok)
+                self._mark_seen(ok)
                 return super().result(0)
 
         def exception(self, timeout=None):
+            if self._seen():
+                return super().exception(0)
             ok = self._wait_done(timeout)
             with atomic:
                 S().ev('fut_wait', self.vid, ok)
+                self._mark_seen(ok)
                 return super().exception(0)
 
         def cancelled(self):
